@@ -4,7 +4,7 @@
    container, writer and reader), C05/TskFile.v (tskit's column schema layer). *)
 From Coq Require Import List ZArith Bool Permutation Sorted.
 From TskVerif Require Import Base.Common Gen.Generated C05.Bytes C05.Kastore C05.KastoreProofs C05.TskFile
-  C05.TskProofs C05.StreamProofs C05.SearchProofs C05.Equals C05.EqualsProofs C05.TableProofs C05.TcRoundtrip C10.TruncProofs C10.CorruptProofs.
+  C05.TskProofs C05.StreamProofs C05.SearchProofs C05.Equals C05.EqualsProofs C05.TableProofs C05.TcRoundtrip C05.Injective C10.TruncProofs C10.CorruptProofs.
 Import ListNotations.
 Open Scope Z_scope.
 
@@ -111,3 +111,19 @@ Proof. exact TruncProofs.stream_truncated_tail. Qed.
 Theorem lazy_load_ignores_rest : forall its rest sk sr, items_ok its -> its <> [] -> sk || sr = true ->
   tsk_load_bytes sk sr (kas_write its ++ rest) = tsk_load_bytes sk sr (kas_write its).
 Proof. exact CorruptProofs.lazy_load_ignores_rest. Qed.
+
+(* (h) lossless storage stated as INJECTIVITY: the written bytes determine the content.  Two item
+   lists with the same kastore file are the same key-sorted list; two well-formed table
+   collections whose dumps are byte-identical are equal after normalisation (tc_normalise only
+   maps a null reference sequence to "absent").  Corollaries of kas_roundtrip / tc_roundtrip. *)
+Theorem kas_encode_injective : forall its1 its2,
+  Forall item_ok its1 -> zlen its1 < 4294967296 -> kas_size (sort_items its1) < two64 ->
+  Forall item_ok its2 -> zlen its2 < 4294967296 -> kas_size (sort_items its2) < two64 ->
+  kas_encode its1 = kas_encode its2 -> sort_items its1 = sort_items its2.
+Proof. exact kas_encode_injective_proof. Qed.
+
+Theorem dump_injective : forall tc1 tc2,
+  wf_tc tc1 -> enc_ok (tsk_dump tc1) -> NoDup (map ikey (tsk_dump tc1)) ->
+  wf_tc tc2 -> enc_ok (tsk_dump tc2) -> NoDup (map ikey (tsk_dump tc2)) ->
+  tsk_dump_bytes tc1 = tsk_dump_bytes tc2 -> tc_normalise tc1 = tc_normalise tc2.
+Proof. exact dump_injective_proof. Qed.
